@@ -558,6 +558,10 @@ def _encode(command: str, components: list[int], parts: list[str]) -> tuple[byte
             # 4-octet AS specific (RFC 5668): not the same type as an IPv4 address
             command += '-asn4'
 
+    # redirect-to-nexthop has a header and no fields: 'redirect-to-nexthop:1:1' was answered with KeyError
+    if command not in _ENCODE:
+        raise ValueError('invalid extended community {}, it takes no value'.format(command))
+
     encoding = _ENCODE[command]
 
     if len(components) != len(encoding):
